@@ -128,13 +128,18 @@ CLAIMED["C14"] = _e(
     "DESIGN.md §3 C14",
 )
 CLAIMED["C15"] = _e(
-    "Lean 4 proof over an interleaving step relation (all schedules, faults, crash points): atomicity invariant, mutual "
-    "exclusion, convergence with the lock, progress; fault injection at every I/O call, child-process kill at every "
-    "source line, forced two-thread schedules on the real driver.persist; independent state-file reader as oracle",
-    "Kernel-checked atomicity/convergence for all interleavings of any number of jobs and mutations; the runtime part "
-    "(fsync/power loss, non-POSIX rename) is outside the model: partial for the runtime, as DESIGN says.",
-    "POSIX os.replace atomicity, page cache surviving process death, tempfile freshness are assumptions; the snapshot "
-    "is one atomic read in the model (the harness serialises it against pairing changes).",
+    "Lean 4 proof over an interleaving step relation (all schedules of per-attribute stores of a pairing change, "
+    "per-attribute reads of a save, I/O steps, faults, a kill): atomicity (the file is the initial one or a state that "
+    "existed at a change boundary), snapshot-is-a-state, crash recovery through any loader inverting the encoder, mutual "
+    "exclusion, convergence, two-lock progress; fault injection at every I/O call and every attribute read, child-process "
+    "kill at every source line with a real restart afterwards, forced multi-thread schedules on the real driver.persist "
+    "with an observed State (saves parked inside changes and changes inside saves), two drivers in one directory; "
+    "independent state-file reader as oracle",
+    "Kernel-checked atomicity/convergence for all interleavings of any number of jobs and changes at attribute "
+    "granularity; the runtime part (fsync/power loss, non-POSIX rename) is outside the model: partial for the runtime, as DESIGN says.",
+    "POSIX os.replace atomicity, page cache surviving process death, tempfile freshness are assumptions; a thread switch "
+    "inside one dict iteration is not a step of the model (with State.lock it cannot happen); a stable instant of a forced "
+    "schedule stands in for a kill at that instant.",
     "DESIGN.md §3 C15",
 )
 CLAIMED["C16"] = _e(
